@@ -795,6 +795,16 @@ def rulePODInterval(ts: datetime, p: Time, i: Interval) -> Optional[Interval]:
             minute=i.t_from.minute,
             DOW=i.t_from.DOW,
         )
+    if (
+        t_from is not None
+        and t_to is not None
+        and t_from.isDateTime
+        and t_to.isDateTime
+        and t_from.dt > t_to.dt
+    ):
+        # moving only the start into the afternoon would turn the interval
+        # around ("evening 19. 8-15"): the part of day does not apply
+        return None
     return Interval(t_from=t_from, t_to=t_to)
 
 
